@@ -25,7 +25,7 @@ import (
 // identity is also the encoding of a real point)? (0, y) is on y² = x³ + a·x + b iff b is a square:
 //   secp256k1 b = 7: non-residue (Euler: 7^((p−1)/2) = −1)  → no such point
 //   pallas, vesta b = 5: non-residue on both fields           → no such point
-//   P-256 b = 5ac6…604b: a square                             → two points (0, ±√b)   [finding F2]
+//   P-256 b = 5ac6…604b: a square                             → two points (0, ±√b)   [known finding C13-p256-x0-compressed-02: (0, even √b) shares 02‖0…0 with the identity]
 //   BLS12-381 E(F_p) b = 4 = 2²: (0, ±2), points of order 3 outside G1 (rejected by the subgroup check)
 // TestXZeroPoints recomputes this table with the model (LegendreFp / LiftX) on every run.
 
